@@ -99,7 +99,7 @@ def compare(run, case, via_yaml, scratch, contracts=None):
         m = model
         v = verdicts[0]
         if v == "outcome" and not m.ok and m.incidental and m.fail_kind == "processor_error" and m.nodes:
-            odd = [x for x in m.nodes[-1].params.values() if isinstance(x, (list, dict, str, tuple)) or x is None]
+            odd = [x for x in m.nodes[-1].params.values() if isinstance(x, (list, dict, str, tuple))]
             if odd:
                 # arithmetic of a leaf on a non-scalar parameter value: plain Python raises where numpy scalars
                 # broadcast — a representation detail of the harness components, not pipeline semantics
@@ -162,7 +162,7 @@ def compare(run, case, via_yaml, scratch, contracts=None):
     if m.fail_kind == "construction" and real.leaves:
         viol("leaf_before_construction_failure", "a node ran although construction of the pipeline failed", real={"leaves": real.leaves})
     odd_arith = m.incidental and m.fail_kind == "processor_error" and m.nodes and any(
-        isinstance(x, (list, dict, str, tuple)) or x is None for x in m.nodes[-1].params.values())
+        isinstance(x, (list, dict, str, tuple)) for x in m.nodes[-1].params.values())
     if odd_arith:
         run.count("odd_value_arithmetic_not_compared")   # numpy scalars broadcast where plain Python raises earlier
     elif m.ctx is not None and m.fail_kind != "construction" and not account.close(m.ctx, real.ctx):
